@@ -6,7 +6,7 @@ from . import common as C
 
 PROPS_FILE = "props/C01.v"
 IMPORTS = ""
-RULE = ("cases = factorial design over factor kind {general, onerank, linear, constant, measure, pdf} x op "
+RULE = ("cases = factorial design over factor kind {general, onerank (a third of them with some NEGATIVE weights g, product still positive definite), linear, constant, measure, pdf} x op "
         "{multiply, *, hadamard, product, factor.product} x update_full x measure-cache-warm, assigned round-robin "
         "to seeded shape tuples (R1,R2,D); rational parameters; non-trivial = R1*R2*D > 1 (more than one scalar "
         "component involved); distinct = distinct SHA1 of the full input description")
@@ -68,6 +68,7 @@ def gen_descs(g, tier):
                     Ru = 1
             d = dict(scn="binop", kind=kind, op=op, upd=upd, cached=cached,
                      u=C.gen_measure(g, Ru, D), f=C.gen_factor(g, kind, Rf, D), xs=g.mat(3, D))
+            C.neg_weights(g, d["u"], d["f"])
             descs.append(C.J(d))
         # product() of a measure (cached / not) and of a factor
         for cached in (False, True):
@@ -85,8 +86,10 @@ def search_descs(g, failing, tier):
             continue
         for (R1, R2, D) in [(1, 1, 1), (2, 1, 1), (1, 2, 1), (2, 2, 2), (d["u"]["R"], d["f"]["R"], d["u"]["D"])]:
             Rf = R2 if d["op"] != "hadamard" else g.choice([1, R1])
-            out.append(C.J(dict(scn="binop", kind=d["kind"], op=d["op"], upd=d["upd"], cached=d["cached"],
-                                u=C.gen_measure(g, R1, D), f=C.gen_factor(g, d["kind"], Rf, D), xs=g.mat(3, D))))
+            d2 = dict(scn="binop", kind=d["kind"], op=d["op"], upd=d["upd"], cached=d["cached"],
+                      u=C.gen_measure(g, R1, D), f=C.gen_factor(g, d["kind"], Rf, D), xs=g.mat(3, D))
+            C.neg_weights(g, d2["u"], d2["f"])
+            out.append(C.J(d2))
     return out
 
 
